@@ -153,7 +153,9 @@ func combinePorts(as string, bs string) (string, error) {
 	bBitset := parsePorts(bs)
 
 	aBitset.InPlaceIntersection(bBitset)
-	if aBitset.Len() == 0 {
+	if aBitset.None() {
+		// No port in common: the combined rule can never match.  (Len() is the size of the bitset,
+		// not the number of ports in it.)
 		return "", policysets.ErrRuleIsNoOp
 	}
 
@@ -167,7 +169,8 @@ func combinePorts(as string, bs string) (string, error) {
 
 		afterEndOfRange, valid := aBitset.NextClear(startOfRange + 1)
 		if !valid {
-			panic("bitset said no end of range")
+			// The range runs up to the last bit of the bitset (e.g. it ends at port 65535).
+			afterEndOfRange = aBitset.Len()
 		}
 		endOfRange := afterEndOfRange - 1
 
